@@ -42,10 +42,11 @@ def run(ck):
     env = fresh_env()
     apps = gen_corpus("APPLY", module="gen/Gen_Apply", deps=("gen/Gen_Apply.tla", "SmtTypes.tla"))
     quants = gen_corpus("QUANT", module="gen/Gen_Apply", deps=("gen/Gen_Apply.tla", "SmtTypes.tla"))
+    clash = gen_corpus("CLASH", module="gen/Gen_Apply", deps=("gen/Gen_Apply.tla", "SmtTypes.tla"))
     evs = []
     n_ok = n_err = 0
     odd_exc = {}
-    for k, app in enumerate(apps + quants):
+    for k, app in enumerate(apps + quants + clash):
         app.setdefault("bv", [])
         ev = {"id": k, "kind": "create", "app": app, "res": "error", "out": term_io.node("bool_constant", i=[1]),
               "rty": term_io.ty_none(), "exc": ""}
@@ -74,7 +75,7 @@ def run(ck):
         e = byid[i]
         for cl in fails:
             ck.violation({"kind": "create", "clause": cl, "app": app_shape(e["app"])}, {"event": e})
-    ck.part("applications", total=len(evs), accepted=n_ok, rejected=n_err, non_pysmt_exception_classes=odd_exc)
+    ck.part("applications", custom_sorts_named_like_builtins=len(clash), total=len(evs), accepted=n_ok, rejected=n_err, non_pysmt_exception_classes=odd_exc)
     ck.note("exception classes other than Pysmt*/TypeError still count as 'rejected': %s" % odd_exc)
     for e in (evs[0], evs[len(evs) // 2], evs[-1]):
         ck.sample({"app": app_shape(e["app"]), "res": e["res"], "exc": e["exc"]})
